@@ -47,7 +47,7 @@ def record(tw, rng, n, stats):
         v = c.vapour_pressure_constants
         # --- vaporisation
         for _ in range(20):
-            T = rng.uniform(200.0, 500.0)
+            T = gen.some_temperature(rng, 200.0, 500.0)
             if v.type != "antoine" or abs(T + v.c) >= 40.0:
                 break
         else:
